@@ -1,5 +1,6 @@
 SPECIFICATION Spec
 CONSTANTS Family = "prog"
  Scope = "thorough"
+ Emit = FALSE
 INVARIANTS C01_Sem C02_Sem C03_Sem C08_Sem
 CHECK_DEADLOCK FALSE
